@@ -144,17 +144,15 @@ class HSym(HBase):
                 extra.append(s.t * 64 == z3.ToReal(k))
         if not extra:
             return None
-        solver.push()
+        s2 = z3.Solver()
+        s2.set('timeout', 1500)
         try:
-            solver.set('timeout', 1500)
-            solver.add(*extra)
-            if solver.check() == z3.sat:
-                return solver.model()
+            s2.add(solver.assertions())
+            s2.add(*extra)
+            if s2.check() == z3.sat:
+                return s2.model()
         except z3.Z3Exception:
             pass
-        finally:
-            solver.pop()
-            solver.set('timeout', c.timeout_ms)
         return None
 
     def nice_model(self):
